@@ -18,7 +18,8 @@ pub const EVERY: usize = usize::MAX;
 
 #[derive(Clone, Copy, Debug, PartialEq, Eq, Hash, Serialize, Deserialize)]
 pub enum LoopKind {
-    /// 0 = iter_out()/iter(), 1 = iter_in(), 2 = `for e in &n`
+    /// 0 = iter_out()/iter(), 1 = iter_in(), 2 = `for e in &n`,
+    /// 3 / 4 = the out / in iterator driven by hand with size_hint() calls
     EdgeLoop(u8),
     Traversal(Cfg),
 }
@@ -28,6 +29,8 @@ impl LoopKind {
         match self {
             LoopKind::EdgeLoop(0) => "edge-iterator".into(),
             LoopKind::EdgeLoop(1) => "iter_in".into(),
+            LoopKind::EdgeLoop(3) => "edge-iterator+size_hint".into(),
+            LoopKind::EdgeLoop(4) => "iter_in+size_hint".into(),
             LoopKind::EdgeLoop(_) => "for-in-node".into(),
             LoopKind::Traversal(c) => format!("{}{}{}", c.kind.name(), if c.transpose { ".transpose" } else { "" }, if c.meth == Meth::Filter { "+filter" } else { "+for_each" }),
         }
@@ -96,15 +99,15 @@ fn run_sop<F: Fl>(w: &World<F>, s: &SOp) {
             let _ = (F::edges_out(n(u)), F::edges_in(n(u)));
         }
         SOp::NestedBfs(u, t) => {
-            let cfg = Cfg { kind: Kind::Bfs, transpose: false, target: Some(t), meth: Meth::None, res: ResK::Search };
+            let cfg = Cfg { kind: Kind::Bfs, transpose: false, target: Some(t), meth: Meth::None, res: ResK::Search, alt: false };
             let _ = F::search(n(u), &cfg, &mut |_| true);
         }
         SOp::NestedOther(u, t) => {
             for kind in [Kind::Dfs, Kind::PfsMin] {
-                let cfg = Cfg { kind, transpose: false, target: Some(t), meth: Meth::None, res: ResK::Path };
+                let cfg = Cfg { kind, transpose: false, target: Some(t), meth: Meth::None, res: ResK::Path, alt: false };
                 let _ = F::search(n(u), &cfg, &mut |_| true);
             }
-            let cfg = Cfg { kind: Kind::Pre, transpose: false, target: None, meth: Meth::None, res: ResK::Nodes };
+            let cfg = Cfg { kind: Kind::Pre, transpose: false, target: None, meth: Meth::None, res: ResK::Nodes, alt: false };
             let _ = F::search(n(u), &cfg, &mut |_| true);
         }
         SOp::CloneDrop(u) => {
@@ -136,9 +139,10 @@ pub fn script_ops(n: usize) -> Vec<SOp> {
 }
 
 pub fn loop_kinds(directed: bool, n: usize, root: K) -> Vec<LoopKind> {
-    let mut v = vec![LoopKind::EdgeLoop(0), LoopKind::EdgeLoop(2)];
+    let mut v = vec![LoopKind::EdgeLoop(0), LoopKind::EdgeLoop(2), LoopKind::EdgeLoop(3)];
     if directed {
         v.push(LoopKind::EdgeLoop(1));
+        v.push(LoopKind::EdgeLoop(4));
     }
     let mut targets: Vec<Option<K>> = vec![None];
     targets.extend((0..n as K).filter(|t| *t != root).map(Some));
@@ -147,13 +151,13 @@ pub fn loop_kinds(directed: bool, n: usize, root: K) -> Vec<LoopKind> {
             for meth in [Meth::ForEach, Meth::Filter] {
                 if kind.is_order() {
                     for res in [ResK::Nodes, ResK::Edges] {
-                        v.push(LoopKind::Traversal(Cfg { kind, transpose, target: None, meth, res }));
+                        v.push(LoopKind::Traversal(Cfg { kind, transpose, target: None, meth, res, alt: false }));
                     }
                 } else {
                     for t in &targets {
-                        v.push(LoopKind::Traversal(Cfg { kind, transpose, target: *t, meth, res: ResK::Path }));
+                        v.push(LoopKind::Traversal(Cfg { kind, transpose, target: *t, meth, res: ResK::Path, alt: false }));
                     }
-                    v.push(LoopKind::Traversal(Cfg { kind, transpose, target: None, meth, res: ResK::Cycle }));
+                    v.push(LoopKind::Traversal(Cfg { kind, transpose, target: None, meth, res: ResK::Cycle, alt: false }));
                 }
             }
         }
@@ -224,7 +228,7 @@ pub fn run_case<F: Fl>(c: &LCase) -> Result<LRun, (String, String)> {
         let exists = if transposed {
             // stored kb -> ka, reported reversed
             F::edges_out(&w.nodes[kb as usize]).iter().any(|y| F::edge_accessors(y) == (kb, ka, x))
-        } else if matches!(c.lk, LoopKind::EdgeLoop(1)) {
+        } else if matches!(c.lk, LoopKind::EdgeLoop(1) | LoopKind::EdgeLoop(4)) {
             F::edges_in(&w.nodes[kb as usize]).iter().any(|y| F::edge_accessors(y) == (ka, kb, x))
         } else {
             F::edges_out(&w.nodes[ka as usize]).iter().any(|y| F::edge_accessors(y) == (ka, kb, x))
